@@ -24,10 +24,10 @@ def run(tier, seed, replay=None):
         ck.mc(DIR, "ColGen", "MC_cg_7_SZ234_2.cfg")
         ck.mc(DIR, "ColGen", "NC_colgen.cfg", expect_violation="BoundValid")
         if tier == "thorough":
-            ck.mc(DIR, "ColGen", "MC_cg_9_SZ234_2.cfg", timeout=3000)
-            ck.mc(DIR, "ColGen", "MC_cg_6_SZ123_2.cfg", timeout=3000)
-            ck.mc(DIR, "ColGen", "MC_cg_7_SZ23_3.cfg", timeout=3000)
-            ck.mc(DIR, "ColGen", "MC_cg_10_SZ234_3.cfg", timeout=6000)
+            ck.mc(DIR, "ColGen", "MC_cg_9_SZ234_2.cfg", timeout=14400)
+            ck.mc(DIR, "ColGen", "MC_cg_6_SZ123_2.cfg", timeout=14400)
+            ck.mc(DIR, "ColGen", "MC_cg_7_SZ23_3.cfg", timeout=14400)
+            ck.mc(DIR, "ColGen", "MC_cg_10_SZ234_3.cfg", timeout=14400)
         n = 400 if tier == "quick" else 6000
         cases = [drv.gen_stock(rng) for _ in range(n)] + [drv.gen_custom(rng) for _ in range(n // 2)]
     res = run_tasks("cutstock", "run_cut", cases, timeout=30)
@@ -38,7 +38,7 @@ def run(tier, seed, replay=None):
             r = {"kind": c["kind"], "W": c.get("W", 0), "sizes": c.get("sizes", []), "demands": c["demands"], "pool": [list(x) for x in c.get("pool", [])],
                  "input": c, "events": [{"e": what, "solver": "worker", "what": "WorkerCrash"}]}
         trs.append(r)
-    vs = ck.validate(DIR, "CutTrace", trs, "solve_cg and solve_bp on the same instance", timeout=3000)
+    vs = ck.validate(DIR, "CutTrace", trs, "solve_cg and solve_bp on the same instance", timeout=14400)
     ck.classify(trs, vs, nontrivial=lambda t, v: sum(t["demands"]) >= 2)
     for t in trs:
         for e in t["events"]:
@@ -68,7 +68,7 @@ def run(tier, seed, replay=None):
     st = [r for r in run_tasks("cutstock", "run_cg_steps", sc, timeout=30) if isinstance(r, dict) and "steps" in r]
     if len(st) < len(sc) // 2:
         raise tlc.MachineryError("column-generation step traces could not be recorded (%d of %d)" % (len(st), len(sc)))
-    sv = ck.validate(DIR, "CgSteps", st, "master LP / pricing calls of solve_cg", timeout=3000)
+    sv = ck.validate(DIR, "CgSteps", st, "master LP / pricing calls of solve_cg", timeout=14400)
     for v in sv:
         for d in v.get("div", []):
             ck.divergences["cg_step:" + d] = ck.divergences.get("cg_step:" + d, 0) + 1
